@@ -1,5 +1,5 @@
 CONSTANTS
-  ProtoIdx = {}
+  ProtoIdx = {1}
   Literals <- LitQuick
   ExploreOps <- ExploreCore
   ProbeOps <- ProbeQuick
